@@ -2,7 +2,7 @@
     Only statements; every proof is [exact <lemma>]. *)
 From Coq Require Import Reals List Lra Lia.
 From Dadi Require Import Base.Num Base.NumR Model.Tridiag Model.Scheme Model.NDSweep
-  Proofs.TridiagProofs Proofs.SchemeProofs Proofs.Linearity Proofs.Rescale Proofs.NDLines Proofs.NDSweepProofs Proofs.IntegrateLinear Proofs.IntegrateRescale.
+  Proofs.TridiagProofs Proofs.SchemeProofs Proofs.Linearity Proofs.Rescale Proofs.NDLines Proofs.NDSweepProofs Proofs.IntegrateLinear Proofs.IntegrateRescale Proofs.IntegrateRegimes.
 Import ListNotations.
 Local Open Scope R_scope.
 
@@ -102,5 +102,58 @@ Theorem C03_time_step_rule_scales : forall c, 0 < c -> forall tf pops,
   dt_of tf (map (rescale_pop c) pops) = option_map (Rmult c) (dt_of tf pops).
 Proof. exact dt_of_rescale. Qed.
 
+(** amplitude and duration regimes (harness/props/c03_regimes.py evaluates exactly these identities on the real drivers with
+    factors from 1e-12 to 1e12 and epochs from a fraction of a step to hundreds of steps).
+    Duration: a whole integration is the fold of the step over a list of step lengths that is a function of the parameters, the
+    time-step factor and the end times only; the density and theta0 have no influence on the number or the length of the steps. *)
+Theorem C03_steps_do_not_depend_on_density_const : forall shape grids pops theta tf dj fuel t T (phi : list R),
+  integrate_const fuel shape grids pops theta tf dj t T phi =
+  option_map (fun dts => fold_left (fun acc dt => step shape grids pops theta dt dj acc) dts phi) (step_times fuel pops tf t T).
+Proof. exact integrate_const_steps. Qed.
+Theorem C03_steps_do_not_depend_on_density_timedep : forall shape grids popsf thetaf tf dj fuel t T (phi : list R),
+  integrate_tdep fuel shape grids popsf thetaf tf dj t T phi =
+  option_map (fun nds => fold_left (fun acc nd => step shape grids (popsf (fst nd)) (thetaf (fst nd)) (snd nd) dj acc) nds phi)
+             (step_times_tdep fuel popsf tf t T).
+Proof. exact integrate_tdep_steps. Qed.
+
+(** Amplitude: homogeneity in (density, theta0) for EVERY factor s, over any number of steps, both drivers *)
+Theorem C03_integration_homogeneous_const : forall shape grids,
+  (forall k, (k < length shape)%nat -> length (nth k grids []) = ax_len shape k /\ (2 <= length (nth k grids []))%nat) ->
+  forall pops tf dj s, wf_pops shape pops -> forall fuel th t T (p : list R),
+  integrate_const fuel shape grids pops (s * th) tf dj t T (vscale s p) =
+  option_map (vscale s) (integrate_const fuel shape grids pops th tf dj t T p).
+Proof. exact integrate_const_homogeneous. Qed.
+Print Assumptions C03_integration_homogeneous_const.
+Theorem C03_integration_homogeneous_timedep : forall shape grids,
+  (forall k, (k < length shape)%nat -> length (nth k grids []) = ax_len shape k /\ (2 <= length (nth k grids []))%nat) ->
+  forall popsf tf dj s, (forall u, wf_pops shape (popsf u)) -> forall fuel (thf : R -> R) t T (p : list R),
+  integrate_tdep fuel shape grids popsf (fun u => s * thf u) tf dj t T (vscale s p) =
+  option_map (vscale s) (integrate_tdep fuel shape grids popsf thf tf dj t T p).
+Proof. exact integrate_tdep_homogeneous. Qed.
+
+(** a density built up from nothing by the influx alone scales with theta0 *)
+Theorem C03_integration_from_nothing_scales_with_theta_const : forall shape grids,
+  (forall k, (k < length shape)%nat -> length (nth k grids []) = ax_len shape k /\ (2 <= length (nth k grids []))%nat) ->
+  forall pops tf dj s, wf_pops shape pops -> forall fuel th t T n,
+  integrate_const fuel shape grids pops (s * th) tf dj t T (zeros n) =
+  option_map (vscale s) (integrate_const fuel shape grids pops th tf dj t T (zeros n)).
+Proof. exact integrate_const_from_nothing. Qed.
+Theorem C03_integration_from_nothing_scales_with_theta_timedep : forall shape grids,
+  (forall k, (k < length shape)%nat -> length (nth k grids []) = ax_len shape k /\ (2 <= length (nth k grids []))%nat) ->
+  forall popsf tf dj s, (forall u, wf_pops shape (popsf u)) -> forall fuel (thf : R -> R) t T n,
+  integrate_tdep fuel shape grids popsf (fun u => s * thf u) tf dj t T (zeros n) =
+  option_map (vscale s) (integrate_tdep fuel shape grids popsf thf tf dj t T (zeros n)).
+Proof. exact integrate_tdep_from_nothing. Qed.
+
+(** any theta0 against a density of any size: result = (the density integrated without influx) + theta0 * (unit build-up from nothing) *)
+Theorem C03_integration_affine_in_theta0 : forall shape grids,
+  (forall k, (k < length shape)%nat -> length (nth k grids []) = ax_len shape k /\ (2 <= length (nth k grids []))%nat) ->
+  forall pops tf dj, wf_pops shape pops -> forall fuel th t T (p : list R),
+  integrate_const fuel shape grids pops th tf dj t T p =
+  olincomb 1 th (integrate_const fuel shape grids pops 0 tf dj t T p) (integrate_const fuel shape grids pops 1 tf dj t T (zeros (length p))).
+Proof. exact integrate_const_theta_range. Qed.
+
 Example C03_nonvacuous : lincomb 2 3 [1; 2] [10; 20] = [32; 64].
 Proof. unfold lincomb. cbn. f_equal; [lra | f_equal; lra]. Qed.
+Example C03_regimes_nonvacuous : vscale (1/4) [4; 8] = [1; 2] /\ zeros 2 = [0; 0].
+Proof. unfold vscale, zeros. cbn. split; [f_equal; [lra | f_equal; lra] | reflexivity]. Qed.
